@@ -156,6 +156,8 @@ class Interp:
         self.domains = dict(domains or {})
         self.volatile = set(volatile)
         self.handlers = dict(handlers or {})
+        # the package's "raise a ChildrenException" helper does what its name says, also when the rule did not model it
+        self.handlers.setdefault(".raiseChildrenException", _raise_children_exception)
         self.inline = set(inline)
         self.ignore = tuple(ignore)
         self.unknown_calls = unknown_calls
@@ -1090,6 +1092,11 @@ class Obj:
 
     def __deepcopy__(self, memo):
         return self
+
+
+def _raise_children_exception(interp, call, recv, args, kwargs):
+    interp.path.trace.append(("raise", "ChildrenException", txt(args[0]) if args else ""))
+    raise Raised("ChildrenException")
 
 
 class _Closure:
